@@ -596,3 +596,29 @@ harness! {
         vcover!(n == 2, "exactly one fusion");
     }
 }
+
+// two sorted centroids and one backlog value anywhere (bounded grid), every fuse schedule
+harness! {
+    #[kani::unwind(5)]
+    fn c16_td_merge_two_plus_one_any_schedule() {
+        let mut d = TDigestInner::new(BoolScale, 10);
+        let m0 = grid(0, 4, 1.);
+        let m1 = m0 + grid(0, 4, 1.);
+        let (w0, w1, wb) = (weight(), weight(), weight());
+        let b = grid(0, 8, 1.);
+        d.centroids.push(Centroid { sum: m0 * w0, count: w0 });
+        d.centroids.push(Centroid { sum: m1 * w1, count: w1 });
+        d.backlog.push(Centroid { sum: b * wb, count: wb });
+        d.min = 0.; d.max = 8.; d.n_samples = 3;
+        d.merge();
+        let (c, sm, n) = totals(&d);
+        assert!(d.backlog.is_empty() && n >= 1 && n <= 3, "C11 C16 merge empties the backlog and never creates centroids");
+        assert!(c == w0 + w1 + wb && sm == m0 * w0 + m1 * w1 + b * wb, "C16 count() and sum() are conserved by compression, whatever is fused");
+        let mut i = 0;
+        while i + 1 < d.centroids.len() {
+            assert!(d.centroids[i].mean() <= d.centroids[i + 1].mean(), "C15 merge leaves centroid means sorted");
+            i += 1;
+        }
+        vcover!(b > m0 && b < m1, "backlog value between the two centroids");
+    }
+}
